@@ -596,7 +596,7 @@ struct Harness
             read_elem(e, got, sp, Seq{});
             if (!elem_matches(got, sl.m, why))
             {
-                report(rc.op_domain | pm(C12), "value-mismatch", "element" + std::string(".") + why);
+                report(rc.op_domain | pm(C12) | pm(C04) * (why.find("size") != std::string::npos), "value-mismatch", "element" + std::string(".") + why);
                 return;
             }
         }
@@ -605,7 +605,7 @@ struct Harness
         read_elem(std::as_const(e), got2, sp2, Seq{});
         if (!elem_matches(got2, sl.m, why))
         {
-            report(rc.op_domain | pm(C12), "value-mismatch", "const element." + why);
+            report(rc.op_domain | pm(C12) | pm(C04) * (why.find("size") != std::string::npos), "value-mismatch", "const element." + why);
             return;
         }
         Block* blk = g_heap.find_containing(reinterpret_cast<const void*>(sp[0].b));
